@@ -3,15 +3,15 @@
 
 def _g(**kw):
     p = {"MaxMsgs": 3, "MaxBlocks": 2, "Alphabet": "small", "Roles": "alt", "Bases": '{"default"}',
-         "MaxDev": 0, "OnlyBases": "FALSE", "DevAnywhere": "FALSE"}
+         "MaxDev": 0, "OnlyBases": "FALSE", "DevAnywhere": "FALSE", "WalkLen": 0}
     p.update(kw)
     return {"module": "AnthropicReqGen", "cfg": "AnthropicReq_gen.cfg", "params": p}
 
 
 def _walks(num, depth):
     """seeded random walks: long conversations over the full alphabet with interleaved configuration changes"""
-    g = _g(MaxMsgs=6, MaxBlocks=3, Alphabet="full", Roles="any", Bases='{"default", "rich"}', MaxDev=3, DevAnywhere="TRUE")
-    g["simulate"] = {"num": num, "depth": depth}
+    g = _g(MaxMsgs=6, MaxBlocks=3, Alphabet="full", Roles="any", Bases='{"default", "rich"}', MaxDev=3, DevAnywhere="TRUE", WalkLen=depth)
+    g["simulate"] = {"num": num, "depth": depth + 1}
     return g
 
 
@@ -48,13 +48,13 @@ def register(PROPS, HARNESS_PKGS):
                     _g(MaxMsgs=3, MaxBlocks=2),
                     _g(MaxMsgs=1, MaxBlocks=3, Alphabet="full", Roles="any"),
                     _g(Bases='{"default", "rich"}', MaxDev=2, OnlyBases="TRUE"),
-                    _walks(150, 10),
+                    _walks(40, 12),
                 ]},
                 "thorough": {"gen": [
                     _g(MaxMsgs=3, MaxBlocks=3),
                     _g(MaxMsgs=2, MaxBlocks=2, Alphabet="full", Roles="any"),
                     _g(Bases='{"default", "rich"}', MaxDev=3, OnlyBases="TRUE"),
-                    _walks(4000, 10),
+                    _walks(1500, 14),
                 ], "sample": 200000},
                 "pkg": "internal/adapter/translator/anthropic", "test": "TestVerif_AnthropicReq",
                 "harness_dirs": ["anthropicreq", "anthropicreqlib"],
